@@ -666,6 +666,22 @@ func c02ScanWholeList(c *cx, id string) {
 // a connection that is not protected yet.
 func sendErrorOnlyFromServe(c *cx, id string) {
 	n := 0
+	// ... and the closing tag: Session.Close / closeSession write </stream:stream>
+	// on whatever connection the session has at that moment. Inside the module
+	// only Serve (its shutdown) and the two functions themselves call them: a
+	// Close from the negotiation code ("tell the peer we gave up") puts the tag
+	// on the clear stream of a client that insists on STARTTLS.
+	nc := 0
+	for _, f := range c.allFns() {
+		for _, callee := range []string{"xmpp.Session.Close", "xmpp.Session.closeSession"} {
+			for _, cl := range f.CallsDeep(callee) {
+				nc++
+				okc := f.Short == "xmpp.(*Session).Serve" || f.Short == "xmpp.(*Session).Close" || f.Short == "xmpp.(*Session).sendError" || strings.HasPrefix(f.Short, "xmpp.(*Session).Serve$")
+				c.r.Check(id, f, "call of "+callee, "C: inside the module the stream is closed by Serve's shutdown and by Close itself only", cl.Pos(), okc, "called from "+f.Short+": the closing tag is written outside the serve loop, during negotiation on whatever layer the connection has")
+			}
+		}
+	}
+	c.r.Floor(id, "call sites of Session.Close / closeSession in the module", nc, 2)
 	for _, f := range c.allFns() {
 		for _, cl := range f.CallsDeep("xmpp.Session.sendError") {
 			n++
